@@ -124,7 +124,7 @@ func runPrefix(sc Scenario, prefix []int, o Opts, record bool) runOut {
 		choices = append(choices, c)
 		return c
 	}
-	res := mc.Run(ex.Body, mc.Options{Chooser: chooser, Record: record, Clocks: record || o.Races, Races: o.Races, MaxEvents: o.MaxEvents, OnPoint: ex.OnPoint, Sites: o.Sites})
+	res := mc.Run(ex.Body, mc.Options{Chooser: chooser, Record: record, RecordN: !record, Clocks: record || o.Races, Races: o.Races, MaxEvents: o.MaxEvents, OnPoint: ex.OnPoint, Sites: o.Sites})
 	if bad != "" && res.Internal == "" {
 		res.Internal = bad
 	}
@@ -203,14 +203,14 @@ func DelayBounded(sc Scenario, d int, o Opts) *Stats {
 			st.CapHit = "executions"
 			return
 		}
-		r := runPrefix(sc, prefix, o, true)
+		r := runPrefix(sc, prefix, o, false)
 		st.account(r)
 		if devs >= d || r.res.Internal != "" {
 			return
 		}
-		pts := r.res.Points
+		pts := r.res.NEnabled
 		for i := len(prefix); i < len(pts); i++ {
-			for alt := 1; alt < len(pts[i].Enabled); alt++ {
+			for alt := 1; alt < int(pts[i]); alt++ {
 				np := make([]int, i+1)
 				copy(np, r.choices[:i])
 				np[i] = alt
